@@ -1602,15 +1602,15 @@ Proof.
   match goal with H : x_headc c = Some (?p, _) |- _ => rename p into prev end.
   set (es := flatten [] ns) in *.
   match goal with |- hoare _ _ (eq ?x) _ _ => set (w4 := x) end.
-  assert (H4 : reset_common_post w tid w4).
-  { exact (reset_common_after e c w prev tid a [ESetIndex es] (Forall_cons _ Logic.I (Forall_nil _))). }
+  assert (Hw4 : reset_common_post w tid w4).
+  { apply (reset_common_after e c w prev tid a [ESetIndex es]). repeat constructor. }
   apply at_bind with (R := fun _ w' => reset_hard_post w tid es w').
   - apply at_iterM_idx with
       (J := fun done w1 => reset_common_post w tid w1 /\ idx_of w1 = es /\
               (NoDup (paths es) -> forall en, In en done ->
                  exists kd, get_obj (w_objs w) (e_id en) = Some kd /\ file w1 (e_path en) = Some (snd kd)) /\
               (forall q, ~ In q (paths es) -> file w1 q = file w q)).
-    + intros _. split; [exact H4|]. split; [reflexivity|]. split; [intros _ en []|reflexivity].
+    + intros _. split; [exact Hw4|]. split; [reflexivity|]. split; [intros _ en []|reflexivity].
     + intros done x rest w1 El _ (Jc & Ji & Jd & Jk).
       assert (Hx : In x es) by (rewrite El; apply in_or_app; right; left; reflexivity).
       hsteps.
@@ -1673,3 +1673,723 @@ Proof.
     destruct He0 as [es [He1 He2]]. intros ->. apply (Hq es He1 He2). }
   apply Hgen. exact Hall.
 Qed.
+
+(* ================================================================== *)
+(** * 7. [add] *)
+
+Definition add_arg (c : ctx) (a : bytes) : M unit :=
+  w <- getw ;;
+  if ignored w (x_pats c) a then ret tt
+  else match wt_stat w a with
+       | SNone | SNotDir => i <- of_opt (idx_delete (idx_of w) a) ;; emit (ESetIndex i)
+       | SDir => iterM (add_dir_body c) (files_under w a)
+       | SFile => add_file a
+       end.
+
+Lemma cmd_add_uses_arg : forall c args,
+  cmd_add c args =
+  (guard (negb (is_nil args)) ;;;
+   (w <- getw ;; guard (forallb (fun a => exists_on_disk w a || tracked w a) args)) ;;;
+   iterM (add_arg c) args ;;; ret []).
+Proof. reflexivity. Qed.
+
+Lemma cmd_add_one_arg : forall c w a tr,
+  exists_on_disk w a || tracked w a = true ->
+  runs (add_arg c a) w (Ok tt) tr -> runs (cmd_add c [a]) w (Ok []) tr.
+Proof.
+  intros c w a tr Hv Hb. rewrite cmd_add_uses_arg.
+  apply runs_bind_guard; [reflexivity|]. rstep. rstep.
+  apply runs_bind_guard; [cbn [forallb]; rewrite Hv; reflexivity|].
+  cbn [iterM]. rstep. rewrite <- (app_nil_r tr). apply runs_seq; [exact Hb|]. rstep. rstep.
+Qed.
+
+(* validation: every argument exists on disk or is tracked, else nothing happens *)
+Theorem cmd_add_refuses : forall c w args,
+  forallb (fun a => exists_on_disk w a || tracked w a) args = false ->
+  runs (cmd_add c args) w Err [] /\ run_m (cmd_add c args) w = (Err, w, []).
+Proof.
+  intros c w args Hv.
+  assert (Hr : runs (cmd_add c args) w Err []).
+  { rewrite cmd_add_uses_arg. destruct args as [|a0 args0]; [apply runs_bind_guard_false; reflexivity|].
+    apply runs_bind_guard; [reflexivity|]. rstep. rstep. apply runs_bind_guard_false. exact Hv. }
+  split; [exact Hr | apply (runs_run_m _ _ _ _ _ Hr)].
+Qed.
+
+(* (a) one argument that is an existing, non-ignored file *)
+Theorem cmd_add_file_spec : forall c w a data, Canonical (idx_of w) ->
+  wt_stat w a = SFile -> ignored w (x_pats c) a = false -> file w a = Some data ->
+  exists tr, runs (cmd_add c [a]) w (Ok []) tr /\ Forall add_eff tr /\
+             (staged w a = Some (blob_id data) -> tr = []) /\
+             add_file_post w a data (apply_effects tr w).
+Proof.
+  intros c w a data Hc Hs Hig Hf. destruct (add_file_spec w a data Hc Hf) as (tr & Hr & Hrest).
+  exists tr. split; [|exact Hrest].
+  apply cmd_add_one_arg; [unfold exists_on_disk; rewrite Hs; reflexivity|].
+  unfold add_arg. rstep. rewrite Hig, Hs. exact Hr.
+Qed.
+
+(* an ignored argument: nothing at all *)
+Theorem cmd_add_ignored_spec : forall c w a,
+  exists_on_disk w a || tracked w a = true -> ignored w (x_pats c) a = true ->
+  runs (cmd_add c [a]) w (Ok []) [].
+Proof.
+  intros c w a Hv Hig. apply cmd_add_one_arg; [exact Hv|]. unfold add_arg. rstep. rewrite Hig. rstep.
+Qed.
+
+(* (b) one argument that is a tracked path no longer on disk *)
+Record add_missing_post (w : world) (a : bytes) (w' : world) : Prop := {
+  amp_canon : Canonical (idx_of w');
+  amp_staged : staged w' a = None;
+  amp_others : forall q, q <> a -> staged w' q = staged w q;
+  amp_wt : same_wt w w';
+  amp_meta : same_meta w w';
+  amp_objs : same_objs w w'
+}.
+
+Theorem cmd_add_missing_spec : forall c w a, Canonical (idx_of w) ->
+  wt_stat w a = SNone -> staged w a <> None -> ignored w (x_pats c) a = false ->
+  exists i, idx_delete (idx_of w) a = Some i /\
+            runs (cmd_add c [a]) w (Ok []) [ESetIndex i] /\
+            add_missing_post w a (apply_effects [ESetIndex i] w).
+Proof.
+  intros c w a Hc Hs Hst Hig. destruct (stg_delete_some (idx_of w) a Hc Hst) as [i Hd].
+  destruct (stg_delete (idx_of w) a i Hc Hd) as (Hci & Hsp & Hso).
+  exists i. split; [exact Hd|]. split.
+  - apply cmd_add_one_arg.
+    { rewrite stg_tracked. destruct (staged w a); [apply orb_true_r | contradiction Hst; reflexivity]. }
+    unfold add_arg. rstep. rewrite Hig, Hs. ropt i Hd. rstep.
+  - constructor.
+    + exact Hci.
+    + exact Hsp.
+    + intros q Hq. rewrite !staged_stg. apply Hso. exact Hq.
+    + split; reflexivity.
+    + repeat split.
+    + split; reflexivity.
+Qed.
+
+(* (c) a directory argument *)
+(* every file of the work tree is a file for [wt_stat] (no file below a file,
+   no file called "."): what a real file system guarantees *)
+Definition ex_wt_consistent (w : world) : Prop :=
+  forall f data, file w f = Some data -> wt_stat w f = SFile.
+
+Lemma files_under_in : forall w d f, In f (files_under w d) ->
+  under_dir d f = true /\ exists data, file w f = Some data.
+Proof.
+  intros w d f H. unfold files_under in H. apply in_map_iff in H. destruct H as [[k v] [Ek Hin]].
+  cbn [fst] in Ek. subst k. apply filter_In in Hin. destruct Hin as [Hin Hu]. cbn [fst] in Hu.
+  split; [exact Hu|]. apply (ex_am_get_in _ _ _ _ Hin).
+Qed.
+
+Lemma files_under_intro : forall w d f data, In (f, data) (w_files w) -> under_dir d f = true ->
+  In f (files_under w d).
+Proof.
+  intros w d f data Hin Hu. unfold files_under. apply in_map_iff. exists (f, data).
+  split; [reflexivity|]. apply filter_In. split; [exact Hin | exact Hu].
+Qed.
+
+(* for an existing file [ignored] looks at the patterns only: it does not
+   depend on the staging area, hence stays the same all through [add] *)
+Lemma ignored_file_indep : forall w w' pats f,
+  w_files w' = w_files w -> w_dirs w' = w_dirs w -> wt_stat w f = SFile ->
+  ignored w' pats f = ignored w pats f /\ ignored w pats f = ign_match pats f.
+Proof.
+  intros w w' pats f Hf Hd Hs. rewrite (ignored_file w pats f Hs).
+  rewrite (ignored_file w' pats f); [auto|]. rewrite (wt_stat_ext w w' f Hf Hd). exact Hs.
+Qed.
+
+Record add_dir_post (w : world) (pats : list regex) (sel : bytes -> Prop) (w' : world) : Prop := {
+  adp_canon : Canonical (idx_of w');
+  adp_wt : same_wt w w';
+  adp_meta : same_meta w w';
+  adp_staged : forall q, sel q -> ign_match pats q = false -> staged w' q = option_map blob_id (file w q);
+  adp_others : forall q, ~ (sel q /\ ign_match pats q = false) -> staged w' q = staged w q
+}.
+
+Lemma add_dir_body_runs_ignored : forall c w f, ignored w (x_pats c) f = true ->
+  runs (add_dir_body c f) w (Ok tt) [].
+Proof. intros c w f H. unfold add_dir_body. rstep. rewrite H. rstep. Qed.
+
+Lemma add_dir_body_runs_add : forall c w f tr, ignored w (x_pats c) f = false ->
+  runs (add_file f) w (Ok tt) tr -> runs (add_dir_body c f) w (Ok tt) tr.
+Proof. intros c w f tr H Hr. unfold add_dir_body. rstep. rewrite H. exact Hr. Qed.
+
+Lemma add_list_spec : forall c w l, Canonical (idx_of w) -> ex_wt_consistent w ->
+  (forall f, In f l -> exists data, file w f = Some data) ->
+  exists tr, runs (iterM (add_dir_body c) l) w (Ok tt) tr /\ Forall add_eff tr /\
+             add_dir_post w (x_pats c) (fun q => In q l) (apply_effects tr w).
+Proof.
+  intros c w l Hc Hcons Hl.
+  apply (runs_iterM _ (add_dir_body c) (fun done w1 => add_dir_post w (x_pats c) (fun q => In q done) w1)).
+  - constructor.
+    + exact Hc.
+    + apply same_wt_refl.
+    + apply same_meta_refl.
+    + intros q [].
+    + reflexivity.
+  - intros done x rest w1 El [Jc Jw Jm Js Jo].
+    assert (Hx : In x l) by (rewrite El; apply in_or_app; right; left; reflexivity).
+    destruct (Hl x Hx) as [data Hdata]. pose proof (Hcons x data Hdata) as Hsx.
+    destruct Jw as [Jf Jd].
+    destruct (ignored_file_indep w w1 (x_pats c) x Jf Jd Hsx) as [Hi1 Hi2].
+    assert (Hdata1 : file w1 x = Some data) by (unfold file; rewrite Jf; exact Hdata).
+    destruct (ign_match (x_pats c) x) eqn:Eig.
+    + exists []. split; [apply add_dir_body_runs_ignored; congruence|]. split; [constructor|].
+      cbn [apply_effects fold_left]. constructor; try assumption.
+      * split; assumption.
+      * intros q Hq Hqi. apply in_app_or in Hq. destruct Hq as [Hq|[<-|[]]]; [apply Js; assumption | congruence].
+      * intros q Hq. apply Jo. intros [H1 H2]. apply Hq. split; [apply in_or_app; left; exact H1 | exact H2].
+    + destruct (add_file_spec w1 x data Jc Hdata1) as (tr & Hr & Hg & _ & Hp).
+      destruct Hp as [Pc Ps Po Pw Pm _ _ _].
+      exists tr. split; [apply add_dir_body_runs_add; [congruence | exact Hr]|]. split; [exact Hg|].
+      constructor.
+      * exact Pc.
+      * apply (same_wt_trans _ w1); [split; assumption | exact Pw].
+      * apply (same_meta_trans _ _ _ Jm Pm).
+      * intros q Hq Hqi. destruct (bytes_eq_dec q x) as [->|Hne].
+        -- rewrite Ps, Hdata. reflexivity.
+        -- rewrite (Po q Hne). apply in_app_or in Hq. destruct Hq as [Hq|[Hq|[]]]; [|congruence].
+           apply Js; assumption.
+      * intros q Hq. assert (Hne : q <> x).
+        { intros ->. apply Hq. split; [apply in_or_app; right; left; reflexivity | exact Eig]. }
+        rewrite (Po q Hne). apply Jo. intros [H1 H2]. apply Hq.
+        split; [apply in_or_app; left; exact H1 | exact H2].
+Qed.
+
+Theorem cmd_add_dir_spec : forall c w d, Canonical (idx_of w) -> ex_wt_consistent w ->
+  wt_stat w d = SDir -> ignored w (x_pats c) d = false ->
+  exists tr, runs (cmd_add c [d]) w (Ok []) tr /\ Forall add_eff tr /\
+             add_dir_post w (x_pats c) (fun q => In q (files_under w d)) (apply_effects tr w) /\
+             (w_coll (apply_effects tr w) = false -> objs_kept w (apply_effects tr w)).
+Proof.
+  intros c w d Hc Hcons Hs Hig.
+  destruct (add_list_spec c w (files_under w d) Hc Hcons) as (tr & Hr & Hg & Hp).
+  { intros f Hf. exact (proj2 (files_under_in w d f Hf)). }
+  exists tr. split; [|split; [exact Hg|split; [exact Hp | apply objs_kept_trace]]].
+  apply cmd_add_one_arg; [unfold exists_on_disk; rewrite Hs; reflexivity|].
+  unfold add_arg. rstep. rewrite Hig, Hs. exact Hr.
+Qed.
+
+(* ---------- (d) the whole command, any argument list, any outcome ---------- *)
+(* the paths [add args] may (re)stage or unstage, fixed by the initial world *)
+Definition add_sel (w0 : world) (args : list bytes) (q : bytes) : Prop :=
+  exists a, In a args /\ (q = a \/ (under_dir a q = true /\ file w0 q <> None)).
+
+Definition add_inv (w0 : world) (args : list bytes) (w : world) : Prop :=
+  Canonical (idx_of w) /\ w_files w = w_files w0 /\
+  forall q, staged w q <> staged w0 q -> add_sel w0 args q.
+
+Lemma add_inv_put : forall w0 args w i p, add_inv w0 args w -> add_inv w0 args (apply_effect (EPutObj i p) w).
+Proof. intros w0 args w i p H. exact H. Qed.
+
+Lemma add_inv_setidx : forall w0 args w p es', add_inv w0 args w -> add_sel w0 args p ->
+  Canonical es' -> (forall q, q <> p -> stg es' q = stg (idx_of w) q) ->
+  add_inv w0 args (apply_effect (ESetIndex es') w).
+Proof.
+  intros w0 args w p es' (Hc & Hf & Hsel) Hp Hc' Ho. split; [exact Hc'|]. split; [exact Hf|].
+  intros q Hq. destruct (bytes_eq_dec q p) as [->|Hne]; [exact Hp|].
+  apply Hsel. rewrite staged_stg. rewrite <- (Ho q Hne). exact Hq.
+Qed.
+
+Lemma add_inv_add_file_idx : forall w0 args w p id i0 pl, add_inv w0 args w -> add_sel w0 args p ->
+  add_inv w0 args (apply_effect
+     (ESetIndex (match idx_update (idx_of w) id p with Some i => i | None => idx_of w end))
+     (apply_effect (EPutObj i0 pl) w)).
+Proof.
+  intros w0 args w p id i0 pl Hi Hp.
+  apply add_inv_setidx with (p := p); [apply add_inv_put; exact Hi | exact Hp | |].
+  - destruct Hi as [Hc _]. destruct (idx_update (idx_of w) id p) as [i|] eqn:Hu; [|exact Hc].
+    exact (proj1 (stg_update _ _ _ _ Hc Hu)).
+  - intros q Hq. destruct Hi as [Hc _]. destruct (idx_update (idx_of w) id p) as [i|] eqn:Hu; [|reflexivity].
+    exact (proj2 (proj2 (stg_update _ _ _ _ Hc Hu)) q Hq).
+Qed.
+
+Lemma add_inv_delete : forall w0 args w p i, add_inv w0 args w -> add_sel w0 args p ->
+  idx_delete (idx_of w) p = Some i -> add_inv w0 args (apply_effect (ESetIndex i) w).
+Proof.
+  intros w0 args w p i Hi Hp Hd. destruct (stg_delete _ _ _ (proj1 Hi) Hd) as (Hc' & _ & Ho).
+  apply add_inv_setidx with (p := p); assumption.
+Qed.
+
+Definition add_G (_ : world) (e : effect) : Prop := add_eff e.
+
+Lemma add_file_emits : forall w0 args p, add_sel w0 args p ->
+  emits (add_inv w0 args) add_G (add_file p).
+Proof.
+  intros w0 args p Hp. hinline. unfold put_obj. hsteps; try exact Logic.I;
+    repeat match goal with
+    | |- _ /\ _ => split
+    | |- True => exact Logic.I
+    | |- add_G _ _ => exact Logic.I
+    | |- add_inv _ _ (apply_effect (EPutObj _ _) _) => apply add_inv_put; assumption
+    | |- add_inv _ _ (apply_effect (ESetIndex _) (apply_effect (EPutObj _ _) _)) =>
+        apply add_inv_add_file_idx; assumption
+    end.
+Qed.
+
+Theorem cmd_add_emits : forall w0 c args, emits (add_inv w0 args) add_G (cmd_add c args).
+Proof.
+  intros w0 c args. rewrite cmd_add_uses_arg. hsteps.
+  apply at_bind_iterM with (J := fun _ => True).
+  - auto.
+  - intros x w' Hx Hi _. unfold add_arg. hsteps; try exact Logic.I.
+    + (* an existing file *)
+      apply at_call with (P := fun _ => True) (R := fun _ _ => True); [|auto|auto].
+      apply add_file_emits. exists x. split; [exact Hx | left; reflexivity].
+    + (* a directory: every file below it *)
+      apply at_iterM with (J := fun _ => True); [auto| |auto].
+      intros f w'' Hf Hi'' _. unfold add_dir_body. hsteps; try exact Logic.I.
+      apply at_call with (P := fun _ => True) (R := fun _ _ => True); [|auto|auto].
+      apply add_file_emits. exists x. split; [exact Hx|]. right.
+      destruct (files_under_in w' x f Hf) as [Hu [data Hd]]. split; [exact Hu|].
+      destruct Hi as (_ & Hfw & _). unfold file in *. rewrite <- Hfw, Hd. discriminate.
+    + (* a tracked path that is gone *)
+      split; [exact Logic.I|]. split; [|exact Logic.I].
+      eapply add_inv_delete; [eassumption | | eassumption].
+      exists x. split; [exact Hx | left; reflexivity].
+    + split; [exact Logic.I|]. split; [|exact Logic.I].
+      eapply add_inv_delete; [eassumption | | eassumption].
+      exists x. split; [exact Hx | left; reflexivity].
+  - intros w' _ _. hsteps. exact Logic.I.
+Qed.
+
+(* C04 for [add], any arguments, any outcome (failures part-way included):
+   only object writes and index writes are performed, so the work tree, refs,
+   HEAD, journals and configs never change; no readable object is lost; and a
+   path whose staged value changed is an argument or an existing file below
+   an argument *)
+Theorem cmd_add_frame : forall c w args r w' tr, Canonical (idx_of w) ->
+  run_m (cmd_add c args) w = (r, w', tr) ->
+  w' = apply_effects tr w /\ Forall add_eff tr /\
+  same_wt w w' /\ same_meta w w' /\
+  (w_coll w' = false -> objs_kept w w') /\
+  Canonical (idx_of w') /\
+  (forall q, staged w' q <> staged w q -> add_sel w args q).
+Proof.
+  intros c w args r w' tr Hc Hrun.
+  assert (Hi : add_inv w args w).
+  { split; [exact Hc|]. split; [reflexivity|]. intros q Hq. contradiction Hq. reflexivity. }
+  destruct (emits_sound (add_inv w args) add_G _ _ w r w' tr (cmd_add_emits w c args) Hi Hrun)
+    as (Hi' & Hw & Hs & _).
+  assert (Hall : Forall add_eff tr).
+  { apply (steps_ok_forall (add_inv w args) add_G add_eff) with (w := w); [|exact Hs]. intros w1 e0 He. exact He. }
+  split; [exact Hw|]. split; [exact Hall|].
+  destruct (add_eff_trace_frame tr w Hall) as [H1 H2]. rewrite <- Hw in H1, H2.
+  split; [exact H1|]. split; [exact H2|].
+  split; [intro Hcoll; rewrite Hw in *; apply objs_kept_trace; exact Hcoll|].
+  destruct Hi' as (Hc' & _ & Hsel). split; [exact Hc' | exact Hsel].
+Qed.
+
+(* ================================================================== *)
+(** * 8. [restore --staged] *)
+
+(* the id HEAD's snapshot has at [p] when [p] is a file there *)
+Definition head_leaf (ns : list node) (p : bytes) : option bytes := option_map n_id (leaf_node ns p).
+
+Definition idx_G (_ : world) (e : effect) : Prop := is_idx e = true.
+
+Record restore_index_post (w : world) (ns : list node) (p : bytes) (w' : world) : Prop := {
+  rip_canon : Canonical (idx_of w');
+  rip_staged : staged w' p = head_leaf ns p;
+  rip_others : forall q, q <> p -> staged w' q = staged w q;
+  rip_wt : same_wt w w';
+  rip_objs : same_objs w w';
+  rip_meta : same_meta w w'
+}.
+
+Lemma rip_update : forall w ns p n i, Canonical (idx_of w) -> leaf_node ns p = Some n ->
+  idx_update (idx_of w) (n_id n) p = Some i -> restore_index_post w ns p (apply_effect (ESetIndex i) w).
+Proof.
+  intros w ns p n i Hc Hl Hu. destruct (stg_update _ _ _ _ Hc Hu) as (Hc' & Hs & Ho).
+  constructor; try (split; reflexivity); try (repeat split; reflexivity).
+  - exact Hc'.
+  - unfold head_leaf. rewrite Hl. exact Hs.
+  - intros q Hq. rewrite !staged_stg. apply Ho. exact Hq.
+Qed.
+
+Lemma rip_noop : forall w ns p n, Canonical (idx_of w) -> leaf_node ns p = Some n ->
+  idx_update (idx_of w) (n_id n) p = None -> restore_index_post w ns p w.
+Proof.
+  intros w ns p n Hc Hl Hu. constructor; try reflexivity.
+  - exact Hc.
+  - unfold head_leaf. rewrite Hl. rewrite staged_stg. apply (stg_update_none _ _ _ Hc). exact Hu.
+  - apply same_wt_refl.
+  - apply same_objs_refl.
+  - apply same_meta_refl.
+Qed.
+
+Lemma rip_delete : forall w ns p i, Canonical (idx_of w) -> leaf_node ns p = None ->
+  idx_delete (idx_of w) p = Some i -> restore_index_post w ns p (apply_effect (ESetIndex i) w).
+Proof.
+  intros w ns p i Hc Hl Hd. destruct (stg_delete _ _ _ Hc Hd) as (Hc' & Hs & Ho).
+  constructor; try (split; reflexivity); try (repeat split; reflexivity).
+  - exact Hc'.
+  - unfold head_leaf. rewrite Hl. exact Hs.
+  - intros q Hq. rewrite !staged_stg. apply Ho. exact Hq.
+Qed.
+
+Definition restore_index_trace (w : world) (ns : list node) (p : bytes) : list effect :=
+  match leaf_node ns p with
+  | Some n => match idx_update (idx_of w) (n_id n) p with Some i => [ESetIndex i] | None => [] end
+  | None => match idx_delete (idx_of w) p with Some i => [ESetIndex i] | None => [] end
+  end.
+
+(* the four-way case split on (staged?, a file in HEAD?) *)
+Theorem restore_index_spec : forall w ns p, Canonical (idx_of w) ->
+  (staged w p = None -> leaf_node ns p = None -> runs (restore_index ns p) w Err []) /\
+  (staged w p <> None \/ leaf_node ns p <> None ->
+   runs (restore_index ns p) w (Ok tt) (restore_index_trace w ns p) /\
+   restore_index_post w ns p (apply_effects (restore_index_trace w ns p) w)).
+Proof.
+  intros w ns p Hc. unfold restore_index_trace, restore_index, staged. split.
+  - intros Hs Hl. rstep. rewrite Hl. destruct (get_entry (idx_of w) p); [discriminate Hs|]. rstep.
+  - intros Hor. destruct (leaf_node ns p) as [n|] eqn:Hl.
+    + assert (Hr : runs (match idx_update (idx_of w) (n_id n) p with
+                         | Some i => emit (ESetIndex i) | None => ret tt end) w (Ok tt)
+                        (match idx_update (idx_of w) (n_id n) p with Some i => [ESetIndex i] | None => [] end)).
+      { destruct (idx_update (idx_of w) (n_id n) p); rstep. }
+      split.
+      * rstep. destruct (get_entry (idx_of w) p); exact Hr.
+      * destruct (idx_update (idx_of w) (n_id n) p) as [i|] eqn:Hu.
+        -- apply (rip_update w ns p n i Hc Hl Hu).
+        -- apply (rip_noop w ns p n Hc Hl Hu).
+    + destruct (get_entry (idx_of w) p) as [[pos en]|] eqn:Hg.
+      2:{ destruct Hor as [H|H]; contradiction H; reflexivity. }
+      assert (Hd : idx_delete (idx_of w) p = Some (remove_nth pos (idx_of w))).
+      { unfold idx_delete. rewrite Hg. reflexivity. }
+      rewrite Hd. split.
+      * rstep. rewrite Hg. ropt (remove_nth pos (idx_of w)) Hd. rstep.
+      * apply (rip_delete w ns p _ Hc Hl Hd).
+Qed.
+
+Lemma restore_index_hoare : forall ns p w, Canonical (idx_of w) ->
+  hoare (fun _ => True) idx_G (eq w) (restore_index ns p) (fun _ w' => restore_index_post w ns p w').
+Proof.
+  intros ns p w Hc. unfold restore_index. hsteps;
+    repeat match goal with
+    | |- _ /\ _ => split
+    | |- True => exact Logic.I
+    | |- idx_G _ _ => reflexivity
+    | Hl : leaf_node ns p = Some ?n, Hu : idx_update _ (n_id ?n) p = Some ?i
+      |- restore_index_post _ _ _ (apply_effect (ESetIndex ?i) _) => apply (rip_update w ns p n i Hc Hl Hu)
+    | Hl : leaf_node ns p = Some ?n, Hu : idx_update _ (n_id ?n) p = None
+      |- restore_index_post _ _ _ _ => apply (rip_noop w ns p n Hc Hl Hu)
+    | Hl : leaf_node ns p = None, Hd : idx_delete _ p = Some ?i
+      |- restore_index_post _ _ _ (apply_effect (ESetIndex ?i) _) => apply (rip_delete w ns p i Hc Hl Hd)
+    end.
+Qed.
+
+(* ---------- the command, staging-area mode ---------- *)
+(* the nodes of HEAD's snapshot, as the command loads them *)
+Definition head_nodes (c : ctx) (w : world) : option (list node) :=
+  match x_headc c with
+  | None => None
+  | Some (_, cm) =>
+      match get_kind (w_objs w) KTree (c_tree cm) with
+      | None => None
+      | Some d => walk_tree (S (length (w_objs w))) (w_objs w) d
+      end
+  end.
+
+Definition idx_targets (w : world) (ns : list node) (args : list bytes) : list bytes :=
+  concat (map (restore_targets w true ns) args).
+
+Definition restore_idx_flat (c : ctx) (args : list bytes) : M (list bytes) :=
+  guard (negb (is_nil args)) ;;;
+  w <- getw ;;
+  ns <- (guard (am_mem (w_refs w) (w_head w)) ;;;
+         match x_headc c with None => fail | Some _ => head_tree_nodes c end) ;;
+  guard (forallb (fun t => negb (is_nil t)) (map (restore_targets w true ns) args)) ;;;
+  iterM (restore_index ns) (idx_targets w ns args) ;;;
+  ret [].
+
+Lemma cmd_restore_idx_flat : forall c args s, cmd_restore c true args s = restore_idx_flat c args s.
+Proof.
+  intros c args s. unfold cmd_restore, restore_idx_flat.
+  apply bind_ext. intros _ s1. apply bind_ext. intros w s2. apply bind_ext. intros ns s3.
+  cbv zeta. apply bind_ext. intros _ s4.
+  apply bind_ext_m. intro s5. unfold idx_targets. rewrite <- iterM_concat. reflexivity.
+Qed.
+
+Record restore_idx_post (w : world) (ns : list node) (targets : list bytes) (w' : world) : Prop := {
+  rxp_canon : Canonical (idx_of w');
+  rxp_wt : same_wt w w';
+  rxp_objs : same_objs w w';
+  rxp_meta : same_meta w w';
+  rxp_done : forall q, In q targets -> staged w' q = head_leaf ns q;
+  rxp_kept : forall q, ~ In q targets -> staged w' q = staged w q
+}.
+
+(* C09, staging area, any argument list, PARTIAL: if the command answers Ok
+   every selected path is staged exactly as in HEAD (or not at all when HEAD
+   has no file there), every other staged value is unchanged, the work tree,
+   objects and refs are unchanged; only the index is ever written *)
+Theorem cmd_restore_idx_hoare : forall c args w, Canonical (idx_of w) ->
+  hoare (fun _ => True) idx_G (eq w) (cmd_restore c true args)
+        (fun _ w' => exists ns, head_nodes c w = Some ns /\
+                                restore_idx_post w ns (idx_targets w ns args) w').
+Proof.
+  intros c args w Hc.
+  apply (hoare_ext _ _ _ _ _ _ _ (fun s => eq_sym (cmd_restore_idx_flat c args s))).
+  unfold restore_idx_flat. hsteps. hinline. hsteps; try (exfalso; congruence).
+  match goal with H : walk_tree _ _ _ = Some ?n |- _ => rename n into ns; rename H into Hns end.
+  assert (Hhn : head_nodes c w = Some ns).
+  { unfold head_nodes.
+    match goal with H : x_headc c = Some (_, ?cm), Hd : get_kind _ _ (c_tree ?cm) = Some _ |- _ => rewrite H, Hd end.
+    exact Hns. }
+  set (l := idx_targets w ns args).
+  apply at_bind with (R := fun _ w' => restore_idx_post w ns l w').
+  - apply at_iterM_idx with
+      (J := fun done w1 => Canonical (idx_of w1) /\ same_wt w w1 /\ same_objs w w1 /\ same_meta w w1 /\
+              (forall q, In q done -> staged w1 q = head_leaf ns q) /\
+              (forall q, ~ In q l -> staged w1 q = staged w q)).
+    + intros _. split; [exact Hc|]. split; [apply same_wt_refl|]. split; [apply same_objs_refl|].
+      split; [apply same_meta_refl|]. split; [intros q []|reflexivity].
+    + intros done x rest w1 El _ (Jc & Jw & Jo & Jm & Jd & Jk).
+      assert (Hx : In x l) by (rewrite El; apply in_or_app; right; left; reflexivity).
+      apply at_call with (P := eq w1) (R := fun _ w2 => restore_index_post w1 ns x w2);
+        [apply restore_index_hoare; exact Jc | auto |].
+      intros _ w2 _ [Pc Ps Po Pw Pob Pm].
+      split; [exact Pc|]. split; [apply (same_wt_trans _ _ _ Jw Pw)|].
+      split; [apply (same_objs_trans _ _ _ Jo Pob)|]. split; [apply (same_meta_trans _ _ _ Jm Pm)|]. split.
+      * intros q Hq. destruct (bytes_eq_dec q x) as [->|Hne]; [exact Ps|].
+        apply in_app_or in Hq. destruct Hq as [Hq|[Hq|[]]]; [|congruence].
+        rewrite (Po q Hne). apply Jd. exact Hq.
+      * intros q Hq. rewrite Po; [apply Jk; exact Hq|]. intros ->. contradiction (Hq Hx).
+    + intros w1 _ (Jc & Jw & Jo & Jm & Jd & Jk). constructor; assumption.
+  - intros [] w1 _ Hp. hsteps. exists ns. auto.
+Qed.
+
+Theorem cmd_restore_idx_spec : forall c args w out w' tr, Canonical (idx_of w) ->
+  run_m (cmd_restore c true args) w = (Ok out, w', tr) ->
+  exists ns, head_nodes c w = Some ns /\ restore_idx_post w ns (idx_targets w ns args) w' /\
+             w' = apply_effects tr w /\ Forall (fun e => is_idx e = true) tr.
+Proof.
+  intros c args w out w' tr Hc Hrun. unfold run_m in Hrun.
+  destruct (cmd_restore c true args (mkMS w [] None)) as [r s'] eqn:Em.
+  injection Hrun as -> <- <-.
+  destruct (hoare_sound _ _ _ _ _ _ w [] None (Ok out) s' (cmd_restore_idx_hoare c args w Hc) Logic.I eq_refl Em)
+    as (tr0 & Ht & Hw & Hs & _ & _ & _ & HQ).
+  cbn [app] in Ht. subst tr0. destruct (HQ out eq_refl) as (ns & H1 & H2).
+  exists ns. split; [exact H1|]. split; [exact H2|]. split; [exact Hw|].
+  apply (steps_ok_forall _ _ _ (fun w1 e He => He) _ _ Hs).
+Qed.
+
+(* whatever the outcome, [restore --staged] writes nothing but the index *)
+Theorem cmd_restore_idx_frame : forall c args w r w' tr, Canonical (idx_of w) ->
+  run_m (cmd_restore c true args) w = (r, w', tr) ->
+  w' = apply_effects tr w /\ Forall (fun e => is_idx e = true) tr /\
+  same_wt w w' /\ same_objs w w' /\ same_meta w w'.
+Proof.
+  intros c args w r w' tr Hc Hrun. unfold run_m in Hrun.
+  destruct (cmd_restore c true args (mkMS w [] None)) as [r0 s'] eqn:Em.
+  injection Hrun as -> <- <-.
+  destruct (hoare_sound _ _ _ _ _ _ w [] None r s' (cmd_restore_idx_hoare c args w Hc) Logic.I eq_refl Em)
+    as (tr0 & Ht & Hw & Hs & _).
+  cbn [app] in Ht. subst tr0.
+  pose proof (steps_ok_forall _ _ _ (fun w1 e He => He) _ _ Hs) as Hall. cbv beta in Hall.
+  split; [exact Hw|]. split; [exact Hall|]. rewrite Hw. clear Em Hs Hw Hc.
+  revert w. induction (ms_trace s') as [|e tr IH]; intros w.
+  - split; [apply same_wt_refl|]. split; [apply same_objs_refl | apply same_meta_refl].
+  - inversion Hall as [|e' tr' He Htr]; subst. rewrite apply_effects_cons.
+    destruct (IH Htr (apply_effect e w)) as (H1 & H2 & H3).
+    destruct e; try discriminate He.
+    split; [eapply same_wt_trans; [|exact H1]; split; reflexivity|].
+    split; [eapply same_objs_trans; [|exact H2]; split; reflexivity|].
+    eapply same_meta_trans; [|exact H3]. repeat split.
+Qed.
+
+(* TOTAL, one argument that is staged or a file in HEAD: the four cases *)
+Theorem cmd_restore_idx_file_spec : forall c w a hid cm d ns, Canonical (idx_of w) ->
+  am_mem (w_refs w) (w_head w) = true -> x_headc c = Some (hid, cm) ->
+  get_kind (w_objs w) KTree (c_tree cm) = Some d ->
+  walk_tree (S (length (w_objs w))) (w_objs w) d = Some ns ->
+  (staged w a <> None \/ leaf_node ns a <> None) ->
+  runs (cmd_restore c true [a]) w (Ok []) (restore_index_trace w ns a) /\
+  restore_index_post w ns a (apply_effects (restore_index_trace w ns a) w).
+Proof.
+  intros c w a hid cm d ns Hc Hb Hh Hd Hns Hor.
+  destruct (proj2 (restore_index_spec w ns a Hc) Hor) as [Hr Hp]. split; [|exact Hp].
+  apply (runs_ext _ _ _ _ _ _ (cmd_restore_idx_flat c [a])). unfold restore_idx_flat.
+  apply runs_bind_guard; [reflexivity|]. rstep. rstep. rguard Hb. rewrite Hh.
+  unfold head_tree_nodes. rstep. rstep. rewrite Hh. ropt d Hd. ropt ns Hns.
+  assert (Ht : restore_targets w true ns a = [a]).
+  { unfold restore_targets. rewrite stg_tracked.
+    destruct (staged w a); [reflexivity|]. destruct (leaf_node ns a); [reflexivity|].
+    destruct Hor as [H|H]; contradiction H; reflexivity. }
+  unfold idx_targets. cbn [map concat forallb]. rewrite Ht. cbn [app].
+  apply runs_bind_guard; [reflexivity|]. cbn [iterM]. rstep.
+  rewrite <- (app_nil_r (restore_index_trace w ns a)). apply runs_seq; [exact Hr|]. rstep. rstep.
+Qed.
+
+(* the refusal cases named in C08, as instances of [reset_target = None] *)
+Lemma reset_target_bad_arg : forall w a, reset_arg a = None -> reset_target w a = None.
+Proof. intros w a H. unfold reset_target. rewrite H. reflexivity. Qed.
+
+Lemma reset_target_out_of_range : forall w a n hl rs,
+  reset_arg a = Some n -> w_hlog w = Some hl -> parse_reflog hl = Some rs ->
+  (N.of_nat (length rs) <= n)%N -> reset_target w a = None.
+Proof.
+  intros w a n hl rs H1 H2 H3 Hn. unfold reset_target. rewrite H1, H2, H3.
+  destruct (N.leb n 9223372036854775807); [|reflexivity].
+  rewrite (N.min_r n (N.of_nat (length rs)) Hn), Nat2N.id.
+  unfold get_record. rewrite Nat.leb_refl. reflexivity.
+Qed.
+
+Lemma reset_target_zero_id : forall w a n hl rs r,
+  reset_arg a = Some n -> w_hlog w = Some hl -> parse_reflog hl = Some rs ->
+  get_record rs (N.to_nat (N.min n (N.of_nat (length rs)))) = Some r -> r_id r = None ->
+  reset_target w a = None.
+Proof.
+  intros w a n hl rs r H1 H2 H3 H4 H5. unfold reset_target. rewrite H1, H2, H3, H4.
+  destruct (N.leb n 9223372036854775807); [exact H5 | reflexivity].
+Qed.
+
+(* the duplicate-free hypothesis on the work-tree map is necessary for
+   "[rm] makes the file absent": [am_del] removes the first binding only
+   (an artefact of the representation: no command creates a second binding) *)
+Example ex_nodup_needed :
+  am_get (am_del [([x61], [x31]); ([x61], [x32])] [x61]) [x61] = Some [x32].
+Proof. reflexivity. Qed.
+
+(* ================================================================== *)
+(** * 9. Non-vacuity on a concrete history *)
+
+Definition ex_env : env := mkEnv 0 0.
+Definition ex_hist : list action :=
+  [ACmd ex_env CInit;
+   AEdit (UWrite (str "d/x"%string) (str "one"%string));
+   AEdit (UWrite (str "d/y"%string) (str "two"%string));
+   AEdit (UWrite (str "d-old"%string) (str "three"%string));
+   AEdit (UWrite (str "ad/x"%string) (str "four"%string));
+   ACmd ex_env (CAdd [str "."%string])].
+Definition ex_w1 : world := Eval vm_compute in run ex_hist w_empty.
+Definition ex_rm : world * outcome * list effect := Eval vm_compute in step (ACmd ex_env (CRm [str "d"%string])) ex_w1.
+Definition ex_w2 : world := fst (fst ex_rm).
+
+(* after [add .] all four files are staged, in path order *)
+Example ex_added : map e_path (idx_of ex_w1) =
+  [str "ad/x"%string; str "d-old"%string; str "d/x"%string; str "d/y"%string].
+Proof. vm_compute. reflexivity. Qed.
+
+Example ex_added_ids :
+  staged ex_w1 (str "ad/x"%string) = Some (blob_id (str "four"%string)) /\
+  staged ex_w1 (str "d/y"%string) = Some (blob_id (str "two"%string)) /\
+  get_obj (w_objs ex_w1) (blob_id (str "four"%string)) = Some (KBlob, str "four"%string).
+Proof. vm_compute. repeat split. Qed.
+
+(* [rm d] succeeds ... *)
+Example ex_rm_ok : snd (fst ex_rm) = OOk [].
+Proof. vm_compute. reflexivity. Qed.
+
+(* ... the staging area then holds exactly ad/x and d-old ... *)
+Example ex_rm_index : map e_path (idx_of ex_w2) = [str "ad/x"%string; str "d-old"%string].
+Proof. vm_compute. reflexivity. Qed.
+
+(* ... d/x and d/y are gone, ad/x and d-old are byte-identical ... *)
+Example ex_rm_files :
+  file ex_w2 (str "d/x"%string) = None /\ file ex_w2 (str "d/y"%string) = None /\
+  file ex_w2 (str "ad/x"%string) = Some (str "four"%string) /\
+  file ex_w2 (str "d-old"%string) = Some (str "three"%string) /\
+  map fst (w_files ex_w2) = [str "ad/x"%string; str "d-old"%string].
+Proof. vm_compute. repeat split. Qed.
+
+(* ... and exactly two paths were removed *)
+Example ex_rm_trace :
+  filter (fun e => match e with ERemovePath _ => true | _ => false end) (snd ex_rm)
+  = [ERemovePath (str "d/x"%string); ERemovePath (str "d/y"%string)].
+Proof. vm_compute. reflexivity. Qed.
+
+(* the hypotheses of [cmd_rm_dir_spec] are satisfiable: it applies to this world *)
+Lemma ex_w1_canonical : Canonical (idx_of ex_w1).
+Proof.
+  unfold Canonical. vm_compute.
+  repeat (constructor; [| repeat (constructor; [vm_compute; reflexivity|]); constructor]).
+  constructor.
+Qed.
+
+Lemma ex_w1_nodup : ex_nodup_keys (w_files ex_w1).
+Proof.
+  unfold ex_nodup_keys. vm_compute.
+  repeat (constructor; [intro H; repeat (destruct H as [H|H]; [discriminate H|]); exact H|]).
+  constructor.
+Qed.
+
+Example ex_rm_dir_spec_applies :
+  exists tr, runs (cmd_rm [str "d"%string]) ex_w1 (Ok []) tr /\
+    rm_many_post ex_w1 (fun q => staged ex_w1 q <> None /\ under_dir (str "d"%string) q = true)
+                 (apply_effects tr ex_w1).
+Proof.
+  destruct (cmd_rm_dir_spec ex_w1 (str "d"%string) ex_w1_canonical ex_w1_nodup) as (tr & Hr & _ & Hp).
+  - vm_compute. reflexivity.
+  - vm_compute. reflexivity.
+  - intros q Hs _.
+    destruct (in_dec bytes_eq_dec q (paths (idx_of ex_w1))) as [Hin|Hn].
+    + vm_compute in Hin.
+      repeat (destruct Hin as [<-|Hin]; [left; vm_compute; reflexivity|]). contradiction Hin.
+    + exfalso. apply Hs. rewrite staged_stg. apply (stg_none_iff _ _ ex_w1_canonical). exact Hn.
+  - exists tr. split; assumption.
+Qed.
+
+(* re-adding unchanged files changes nothing *)
+Example ex_readd_noop : step (ACmd ex_env (CAdd [str "."%string])) ex_w1 = (ex_w1, OOk [], []).
+Proof. vm_compute. reflexivity. Qed.
+
+(* ---------- findings: why the directory theorems carry their hypotheses ---------- *)
+(* (F-a) [rm d] is not atomic: when a tracked path below [d] has meanwhile
+   become a non-empty directory the command answers Err AFTER having removed
+   the paths before it, from disk and from the staging area.  (The frame
+   theorem [cmd_rm_frame] still holds; the total theorem [cmd_rm_dir_spec]
+   asks every tracked path below [d] to be a file or absent.) *)
+Definition ex_w3 : world :=
+  Eval vm_compute in run [AEdit (UDelete (str "d/y"%string));
+                          AEdit (UWrite (str "d/y/z"%string) (str "zz"%string))] ex_w1.
+Example ex_rm_partway :
+  let '(w', o, tr) := step (ACmd ex_env (CRm [str "d"%string])) ex_w3 in
+  o = OErr /\ length tr = 2 /\
+  map e_path (idx_of w') = [str "ad/x"%string; str "d-old"%string; str "d/y"%string] /\
+  file w' (str "d/x"%string) = None /\ file ex_w3 (str "d/x"%string) = Some (str "one"%string).
+Proof. vm_compute. repeat split. Qed.
+
+(* (F-b) [add] does not unstage a tracked file that has become a directory:
+   the staging area then holds a path and a path below it, and a later
+   [restore .] stops with Err after having rewritten the paths before it
+   (hence the PARTIAL form of [cmd_restore_wd_spec]). *)
+Definition ex_w4 : world :=
+  Eval vm_compute in run [AEdit (UDelete (str "d-old"%string));
+                          AEdit (UWrite (str "d-old/b"%string) (str "bb"%string));
+                          ACmd ex_env (CAdd [str "d-old/b"%string])] ex_w1.
+Example ex_stale_file_and_dir :
+  map e_path (idx_of ex_w4) =
+    [str "ad/x"%string; str "d-old"%string; str "d-old/b"%string; str "d/x"%string; str "d/y"%string] /\
+  let '(w', o, tr) := step (ACmd ex_env (CRestore false [str "."%string])) ex_w4 in
+  o = OErr /\ length tr = 1.
+Proof. vm_compute. repeat split. Qed.
+
+(* ================================================================== *)
+Print Assumptions add_file_spec.
+Print Assumptions add_file_unchanged.
+Print Assumptions cmd_add_file_spec.
+Print Assumptions cmd_add_missing_spec.
+Print Assumptions cmd_add_dir_spec.
+Print Assumptions cmd_add_frame.
+Print Assumptions cmd_rm_refuses.
+Print Assumptions cmd_rm_file_spec.
+Print Assumptions cmd_rm_dir_spec.
+Print Assumptions cmd_rm_frame.
+Print Assumptions wt_put_runs.
+Print Assumptions restore_wd_spec.
+Print Assumptions cmd_restore_wd_spec.
+Print Assumptions cmd_restore_wd_frame.
+Print Assumptions cmd_restore_wd_file_spec.
+Print Assumptions cmd_restore_wd_unknown.
+Print Assumptions restore_index_spec.
+Print Assumptions cmd_restore_idx_spec.
+Print Assumptions cmd_restore_idx_frame.
+Print Assumptions cmd_restore_idx_file_spec.
+Print Assumptions cmd_reset_refused.
+Print Assumptions cmd_reset_soft_spec.
+Print Assumptions cmd_reset_mixed_spec.
+Print Assumptions cmd_reset_hard_spec.
+Print Assumptions cmd_reset_hard_frame.
+Print Assumptions ex_rm_dir_spec_applies.
